@@ -191,7 +191,9 @@ class ParticleSwarmSampler(BaseSampler):
         existing_losses: NDArray[np.float64],
     ) -> NDArray[np.float64]:
         """Sample a batch of parameters."""
-        if not self.is_set_up:
+        # the swarm also starts afresh when no point has been evaluated yet,
+        # e.g. because the batch it proposed first failed in the model or in the loss
+        if not self.is_set_up or len(existing_points) == 0:
             self._set_up(search_space.dims)
             self._previous_batch_index_start = len(existing_points)
             return digitize_data(
